@@ -95,8 +95,8 @@ def ensure_built(need_race=False, need_386=False):
                 if rc != 0:
                     raise SystemExit('cannot build %s:\n%s' % (tool, out))
             rc, out, _ = sh('%s %s %s' % (exe, REPO, V), timeout=600)
-            if rc == 3 and tool == 'bigintgen':
-                b.notes.append('bigintgen: some functions could not be translated (marker definitions emitted): ' + out[-600:])
+            if rc == 3 and tool in ('bigintgen', 'limbgen'):
+                b.notes.append(tool + ': some functions could not be translated (marker definitions emitted): ' + out[-600:])
             elif rc != 0:
                 b.notes.append('%s failed on the current tree: %s' % (tool, out[-2000:]))
                 b.make_ok = False
@@ -543,7 +543,7 @@ def main():
     if b is not None:
         # a translator that refuses the current source leaves its generated file stale:
         # every property whose theorem file depends on that output is no longer shown to hold
-        dep = dict(constgen=None, asmgen=('FfAsm', 'Asm'), limbgen=('FfRoutines', 'FfgRoutines'), bigintgen=('BigIntRoutines', 'BigIntLoops', 'BigIntEq'), effgen=('EffectsIR', 'Effects'))
+        dep = dict(constgen=None, asmgen=('FfAsm', 'Asm'), limbgen=('FfRoutines', 'FfgRoutines', 'FfGlue', 'FfgGlue'), bigintgen=('BigIntRoutines', 'BigIntLoops', 'BigIntEq'), effgen=('EffectsIR', 'Effects'))
         closure = property_closure(pid)
         for ff_ in b.failed_files:
             if ff_.startswith('translator:'):
